@@ -228,7 +228,8 @@ class Gen:
         if letter == 'cw':
             return hexs(rng.choice(CONVENTION_WORDS) if rng.random() < 0.8 else self.word())
         if letter == 'q':
-            return '#%d' % rng.randint(1, 7)
+            # a data operand (qualifier set, phase set, kind): mostly small values, also none at all and sets with many members
+            return '#%d' % (rng.randint(1, 7) if rng.random() < 0.7 else rng.choice([0, 0, 8, 12, 0x40, 0x60, 0xf0, 0x7ff, 0x3ff, 0x555]))
         if letter == 'W':
             return None
         opt = letter.startswith('o')
@@ -257,6 +258,8 @@ class Gen:
             if a is None:
                 return None
             args.append(a)
+        if name == 'get_qualified' and args[0] == '#0':
+            args[0] = '#%d' % rng.randint(1, 7)             # (the empty set is asked for separately, below)
         if name == 'get_qualified' and rng.random() < 0.04:
             args[0] = '#0'                                  # no qualifier: the library raises
             return self.emit('mk %s %s' % (name, ' '.join(args)))
@@ -279,7 +282,47 @@ class Gen:
                 and (name not in self.repeated or rng.random() < 0.16):
             self.repeated.add(name)
             self.emit(line, sort)
+        # the same factory applied to what it has just returned, every other argument unchanged, twice over: f(f(f(x, a), a), a).
+        # An operand that happens to be a node of the same kind, carrying the same data, is one more operand.
+        if r is not None and sort and 'Expr' in closure(sort) and rng.random() < 0.2:
+            slots = [k for k, sl in enumerate(sorts) if sl in ('E', 'oE')]
+            if slots:
+                k = rng.choice(slots)
+                cur = r
+                for _ in range(2):
+                    a2 = list(args)
+                    a2[k] = 'r%d' % cur
+                    cur = self.emit(('mk %s %s' % (name, ' '.join(a2))).strip(), sort)
         return r
+
+    def nesting_sweep(self):
+        """Every factory that takes an expression and returns one, applied to its own result with every other argument unchanged:
+        f(x, a), f(f(x, a), a), f(f(f(x, a), a), a).  Generative: three new nodes, the earlier ones untouched; unified: three nodes too
+        (the arguments differ)."""
+        for name in sorted(self.table):
+            result, sorts = self.table[name]
+            slots = [k for k, sl in enumerate(sorts) if sl in ('E', 'oE')]
+            if not slots or 'Expr' not in closure(result) or name in ('get_product', 'get_sum'):
+                continue
+            args = []
+            for sl in sorts:
+                a = self.operand(sl)
+                args.append(a)
+            if any(a is None for a in args):
+                continue
+            if name == 'get_qualified' and args[0] == '#0':
+                continue
+            sort = 'Classic' if name in CLASSIC else result
+            k = slots[0]
+            if args[k] == '-':
+                i = self.pick('Expr')
+                if i is None: continue
+                args[k] = 'r%d' % i
+            for _ in range(3):
+                cur = self.emit(('mk %s %s' % (name, ' '.join(args))).strip(), sort)
+                args = list(args)
+                args[k] = 'r%d' % cur
+            self.emit('obs')
 
     def decl_scope(self, i):
         """Canonical identity of the scope that declarations through handle i go to (None: not a declaration container)."""
@@ -546,6 +589,7 @@ class Gen:
     def history(self, nops, every_until, every_after):
         self.fac_names = sorted(self.table)
         self.bootstrap()
+        self.nesting_sweep()
         self.emit('obs_all')
         last_obs = len(self.ops)
         rng = self.rng
